@@ -179,6 +179,10 @@ class Call2Mixin:
     return res
 
   def havoc_path(self, env, path):
+    if path.startswith('lock:'):
+      lk = self.spec_val(path[5:], env)
+      self.ghost[f'{lk.name}.free'] = VBool(self.fresh_bool(f'{lk.name}.free'))
+      return
     parts = path.split('.')
     v = env[parts[0]]
     for p in parts[1:-1]:
@@ -201,6 +205,7 @@ class Call2Mixin:
     if id(v) in memo:
       return memo[id(v)]
     if isinstance(v, VObj):
+      self.to_obj(v)      # fix the identity before cloning so that old/new share it
       o = VObj(v.cls, {}, v.frozen, v.types, v.tag)
       memo[id(v)] = o
       # instantiate lazily-typed fields first so old/new agree on them
@@ -229,6 +234,7 @@ class Call2Mixin:
       o.dead = v.dead
     elif isinstance(v, VMap):
       o = VMap(v.has, v.val, v.ksort, v.vkind, v.none, v.stamp, v.clock, v.size)
+      o.guard = None
     elif isinstance(v, VLock):
       o = VLock(v.name, v.reentrant, v.cond)
       o.held = v.held
@@ -390,6 +396,9 @@ class Call2Mixin:
       return VBool(True)
     b = self.truth(self.ev(node.args[1], env))
     return VBool(z3.Implies(a, b))
+
+  def sf_truthy(self, node, env):
+    return VBool(self.truth(self.ev(node.args[0], env)))
 
   def sf_ite(self, node, env):
     c = self.truth(self.ev(node.args[0], env))
